@@ -1,7 +1,7 @@
 """Suite `fps-cli` (C16): fingerprint-file utilities.
   file-seq   _get_fingerprints_from_file_seq / _FingerprintFileSequence vs Model/FpsUtil.v
   batches    bblean.utils.batched, _iter_ranges_and_smiles_batches vs the model
-  cli        bb fps-split / fps-merge / fps-shuffle / fps-info / fps-from-smiles through
+  fps-cli    bb fps-split / fps-merge / fps-shuffle / fps-info / fps-from-smiles through
              typer's CliRunner: direct checks of the C16 statement (content, order, names)
 """
 import os
